@@ -19,7 +19,7 @@ BOUNDS = {'quick': 'shapes {scalar, vectors 2,3, matrices 1x2,2x1,2x2,2x3,3x2,3x
                    'direct/reflected/in-place forms and formula strings; plus vectors of length 4 and 3x4/4x3/4x4 matrices', 'thorough': 'same plus 5-vectors, 2x4, 4x2, tensor 2x3x2'}
 OUTSIDE = ['negative powers of symbolic matrices (np.linalg.inv is LAPACK; checked on concrete matrices only)', 'array literals with symbolic entries '
            '(the evaluator rejects object dtype; literals are concrete)', 'complex entries', 'IEEE rounding']
-DEADLINE = {'quick': 150, 'thorough': 1500}
+DEADLINE = {'quick': 600, 'thorough': 1500}
 FUNCS = ['MathArray.__add__/__radd__/__sub__/__rsub__/__mul__/__rmul__/__truediv__/__rtruediv__/__pow__/__rpow__/__iadd__/...', 'math_array.is_number_zero',
          'MathArray.enable_negative_powers', 'robust_pow.robust_pow', 'MathExpression.eval_product/eval_sum/eval_power/eval_array', 'expressions.evaluator']
 STUBS = ['expressions.np proxy (isinf/isnan elementwise on object arrays)']
